@@ -2,6 +2,7 @@ package main
 
 import (
 	"fmt"
+	"os"
 
 	. "verifharness/lib"
 )
@@ -9,30 +10,16 @@ import (
 func main() {
 	run := NewRun("SMOKE", nil)
 	run.Prepare()
-	reqs := FeatureCatalogue()
-	s := NewSession(run, reqs)
-	for i, r := range reqs {
-		g := s.Gens[i]
-		fmt.Print(r.ID, ": ")
-		for _, p := range Plugins {
-			x := g.Results[p]
-			fmt.Print(p, "=", x.Exit, "(", len(x.Names), ") ")
-			if x.Exit != "ok" {
-				fmt.Print(x.Error, " ")
-			}
+	for _, r := range FeatureCatalogue() {
+		if r.ID != os.Args[1] {
+			continue
 		}
-		fmt.Println()
-	}
-	s.BuildRuntime(true)
-	for _, r := range reqs {
-		if v := s.Verdict[r.ID]; v != nil {
-			o := v.Output
-			if len(o) > 400 {
-				o = o[:400]
+		s := NewSession(run, []*Request{r})
+		for n, c := range s.Gens[0].Results[os.Args[2]].Files {
+			if len(os.Args) < 4 || os.Args[3] == n {
+				fmt.Println("=====", n)
+				fmt.Println(c)
 			}
-			fmt.Println(r.ID, "build", v.Build, "vet", v.Vet, o)
-		} else {
-			fmt.Println(r.ID, "not built")
 		}
 	}
 	run.Cleanup()
